@@ -22,7 +22,9 @@ import (
 	"github.com/foxboron/go-uefi/efivarfs/testfs"
 
 	"verif/internal/hx"
+	"verif/keys"
 	"verif/ref/refesl"
+	"verif/shim/vtime"
 )
 
 const c08Shards = 32
@@ -43,7 +45,7 @@ func init() {
 			if tier == "thorough" {
 				u = append(u, "beyond-4GiB")
 			}
-			return append(u, "large-entry")
+			return append(u, "large-entry", "stored-update")
 		},
 		Run: c08Run,
 		MemKBUnit: func(unit string) int {
@@ -68,6 +70,9 @@ func c08Bound(tier string) (maxEntries int, pairs bool) {
 }
 
 // c08Judge applies the oracle to one candidate input.
+// c08ForceTwins: judge every input through the accessors too (set by units whose inputs are aimed at them)
+var c08ForceTwins bool
+
 func c08Judge(c *hx.Ctx, in []byte, class string, seed []byte) {
 	want, amb, rerr := refesl.Decode(in)
 	var db signature.SignatureDatabase
@@ -98,7 +103,7 @@ func c08Judge(c *hx.Ctx, in []byte, class string, seed []byte) {
 		}
 		// the same bytes as the value of db through the other accessors: the Efivarfs typed accessor
 		// and the package-level twin must give the verdict the decoder gives
-		if c.Index()%50 == 0 {
+		if c.Index()%50 == 0 || c08ForceTwins {
 			file := fstest.MapFS{efivarsDir + "db-" + refFormat(*efivar.Db.GUID): &fstest.MapFile{Data: append([]byte{0x27, 0, 0, 0}, in...)}}
 			tdb, terr := testfs.NewTestFS().With(file).Open().Getdb()
 			efifs.SetFS(efitest.FromMapFS(file))
@@ -114,7 +119,8 @@ func c08Judge(c *hx.Ctx, in []byte, class string, seed []byte) {
 		if c.Index()%7 == 0 {
 			d3, e3 := signature.ReadSignatureDatabase(iotest.DataErrReader(bytes.NewReader(in)))
 			d4, e4 := signature.ReadSignatureDatabase(iotest.OneByteReader(bytes.NewReader(in)))
-			if (e3 == nil) != (err == nil) || (e4 == nil) != (err == nil) || (err == nil && (!bytes.Equal(d3.Bytes(), db.Bytes()) || !bytes.Equal(d4.Bytes(), db.Bytes()))) {
+			d5, e5 := signature.ReadSignatureDatabase(PausingReader(bytes.NewReader(in)))
+			if (e3 == nil) != (err == nil) || (e4 == nil) != (err == nil) || (e5 == nil) != (err == nil) || (err == nil && (!bytes.Equal(d3.Bytes(), db.Bytes()) || !bytes.Equal(d4.Bytes(), db.Bytes()) || !bytes.Equal(d5.Bytes(), db.Bytes()))) {
 				readerDep = true
 			}
 		}
@@ -208,7 +214,44 @@ var c08OtherTypes = func() []refesl.GUID {
 			}
 		}
 	}
-	return append(out, refesl.MkGUID(0xdeadbeef, 0x1234, 0x5678, [8]byte{1, 2, 3, 4, 5, 6, 7, 8}))
+	out = append(out, refesl.MkGUID(0xdeadbeef, 0x1234, 0x5678, [8]byte{1, 2, 3, 4, 5, 6, 7, 8}))
+	// near misses of the supported types: the same GUID in another byte order (as printed, fully
+	// reversed, single fields swapped, last field reversed), nibble-swapped, complemented, off by one
+	for _, w := range []refesl.GUID{refesl.X509, refesl.SHA256, refesl.EXTMGT} {
+		perm := func(idx ...int) refesl.GUID {
+			var g refesl.GUID
+			for i, j := range idx {
+				g[i] = w[j]
+			}
+			return g
+		}
+		cands := []refesl.GUID{
+			perm(3, 2, 1, 0, 5, 4, 7, 6, 8, 9, 10, 11, 12, 13, 14, 15),
+			perm(15, 14, 13, 12, 11, 10, 9, 8, 7, 6, 5, 4, 3, 2, 1, 0),
+			perm(3, 2, 1, 0, 4, 5, 6, 7, 8, 9, 10, 11, 12, 13, 14, 15),
+			perm(0, 1, 2, 3, 5, 4, 6, 7, 8, 9, 10, 11, 12, 13, 14, 15),
+			perm(0, 1, 2, 3, 4, 5, 7, 6, 8, 9, 10, 11, 12, 13, 14, 15),
+			perm(0, 1, 2, 3, 4, 5, 6, 7, 15, 14, 13, 12, 11, 10, 9, 8),
+			perm(3, 2, 1, 0, 5, 4, 7, 6, 15, 14, 13, 12, 11, 10, 9, 8),
+			perm(0, 1, 2, 3, 6, 7, 4, 5, 8, 9, 10, 11, 12, 13, 14, 15),
+			perm(1, 0, 3, 2, 5, 4, 7, 6, 9, 8, 11, 10, 13, 12, 15, 14),
+		}
+		var nib, inv, inc, dec refesl.GUID
+		for i := range w {
+			nib[i] = w[i]<<4 | w[i]>>4
+			inv[i] = ^w[i]
+		}
+		inc, dec = w, w
+		inc[0]++
+		dec[15]--
+		cands = append(cands, nib, inv, inc, dec)
+		for _, g := range cands {
+			if g != refesl.X509 && g != refesl.SHA256 && g != refesl.EXTMGT {
+				out = append(out, g)
+			}
+		}
+	}
+	return out
 }()
 
 // c08Large: X.509 lists whose single / last entry is larger than a megabyte (firmware dbx files are
@@ -377,6 +420,10 @@ func c08Run(c *hx.Ctx, tier, unit string) {
 		c08Large(c, tier)
 		return
 	}
+	if unit == "stored-update" {
+		c08StoredUpdate(c)
+		return
+	}
 	shard, _ := strconv.Atoi(strings.TrimPrefix(unit, "mut#"))
 	me, pairs := c08Bound(tier)
 	shapes := listShapes(me)
@@ -454,4 +501,65 @@ func c08Run(c *hx.Ctx, tier, unit string) {
 		}
 		return !c.Expired()
 	})
+}
+
+// c08StoredUpdate: variable content that begins with an authentication descriptor (what is WRITTEN
+// for a signed update: EFI_VARIABLE_AUTHENTICATION_2 + new value) is not a sequence of signature
+// lists: the first 16 bytes are a timestamp, not a supported type. Decoder and every accessor must
+// reject it, for genuine signed updates of several payloads, for descriptors standing alone, doubled,
+// with every truncation of the descriptor part, and for lists whose HeaderSize field holds the
+// descriptor's revision/type words (0x0EF10200).
+func c08StoredUpdate(c *hx.Ctx) {
+	c08ForceTwins = true
+	vtime.Set(time.Date(2024, 5, 6, 7, 8, 9, 0, time.UTC))
+	payloads := [][]refesl.List{
+		nil,
+		{refesl.Mk(refesl.SHA256, 48, refesl.Entry{Owner: ownerA, Data: fill(32, 1)})},
+		{refesl.Mk(refesl.SHA256, 48, refesl.Entry{Owner: ownerA, Data: fill(32, 1)}, refesl.Entry{Owner: ownerB, Data: fill(32, 2)}), refesl.Mk(refesl.X509, uint32(16+len(keys.C(1).Raw)), refesl.Entry{Owner: ownerB, Data: keys.C(1).Raw})},
+	}
+	for pi, pl := range payloads {
+		enc := refesl.Encode(pl)
+		var ldb signature.SignatureDatabase
+		if len(enc) > 0 {
+			var err error
+			if ldb, err = signature.ReadSignatureDatabase(bytes.NewReader(enc)); err != nil {
+				c.Note("payload %d does not decode: %v", pi, err)
+				continue
+			}
+		}
+		_, su, err := signature.SignEFIVariable(efivar.Db, &ldb, memoSignerFor(1), keys.C(1))
+		if err != nil {
+			c.Note("SignEFIVariable: %v", err)
+			continue
+		}
+		blob := append([]byte{}, su.Bytes()...)
+		desc := blob[:len(blob)-len(enc)]
+		do := func(in []byte, class string) {
+			if !c.Next() {
+				return
+			}
+			c08Judge(c, in, class, enc)
+		}
+		do(blob, "signed update (authentication descriptor + lists) stored as the variable content")
+		do(desc, "authentication descriptor alone as the variable content")
+		do(append(append([]byte{}, desc...), blob...), "two authentication descriptors, then lists")
+		do(append(append([]byte{}, enc...), blob...), "lists, then a signed update")
+		for n := 1; n < len(desc); n += 1 + len(desc)/64 {
+			do(append(append([]byte{}, desc[:n]...), enc...), "truncated authentication descriptor, then lists")
+		}
+		// the descriptor with other timestamps (zero, all fields at their maximum)
+		for _, ts := range [][]byte{make([]byte, 16), {0x0f, 0x27, 12, 31, 23, 59, 59, 0, 0, 0, 0, 0, 0, 0, 0, 0}} {
+			in := append([]byte{}, blob...)
+			copy(in, ts)
+			do(in, "signed update with another timestamp stored as the variable content")
+		}
+		// lists whose HeaderSize is the descriptor's wRevision/wCertificateType words
+		if len(enc) > 0 {
+			in := append([]byte{}, enc...)
+			binary.LittleEndian.PutUint32(in[20:], 0x0EF10200)
+			do(in, "size field HeaderSize")
+			in2 := append(append([]byte{}, in...), blob...)
+			do(in2, "size field HeaderSize")
+		}
+	}
 }
